@@ -22,15 +22,15 @@ Definition sq (e : op) : bool := Nat.eqb (fst (shape e)) (snd (shape e)).
 Definition is_struct (e : op) : bool :=
   match e with Dense _ | Ident _ | Diag _ _ | Scal _ _ | Sum _ | BDiag _ | Kron _ | KronSum _ => true | _ => false end.
 (* operators on which the rules are claimed: Dense of any shape, sums of equal shapes, square blocks / factors,
-   generic sub-operators well-formed (so that mm_den applies), square and non-empty.  KronSum is not covered here
-   (no product theorem in Op.v yet): correspondence only. *)
+   generic sub-operators well-formed (so that mm_den applies), square and non-empty.  (A KronSum INSIDE a generic
+   operator is excluded through wf: Op.v has no product theorem for KronSum yet.) *)
 Fixpoint dwf (e : op) : bool :=
   match e with
   | Dense _ | Ident _ | Diag _ _ | Scal _ _ => true
   | Sum ms => negb (Nat.eqb (length ms) 0) && forallb dwf ms && forallb (fun s => shp_eqb s (hd (0,0)%nat (map shape ms))) (map shape ms)
   | BDiag ms => forallb (fun mc => dwf (fst mc) && Nat.eqb (fst (shape (fst mc))) (snd (shape (fst mc)))) ms
   | Kron ms => forallb (fun m => dwf m && Nat.eqb (fst (shape m)) (snd (shape m)) && (0 <? fst (shape m))%nat) ms
-  | KronSum _ => false
+  | KronSum ms => negb (Nat.eqb (length ms) 0) && forallb (fun m => dwf m && Nat.eqb (fst (shape m)) (snd (shape m)) && (0 <? fst (shape m))%nat) ms
   | _ => wf e && Nat.eqb (fst (shape e)) (snd (shape e)) && (0 <? fst (shape e))%nat
   end.
 
@@ -73,6 +73,301 @@ Proof. intros HB Hwf Hsq Hpos. apply Nat.eqb_eq in Hsq. apply Nat.ltb_lt in Hpos
   { rewrite <- Hsq, Nat.eqb_refl. destruct (exact_diag B (fst (shape e)) (fun _ X => matmat e X) k) as [d0|] eqn:E; [|discriminate].
     intros H; injection H as <-.
     assert (Hs : shape e = (fst (shape e), fst (shape e))) by (destruct (shape e); cbn [fst snd] in *; congruence).
-    destruct (exact_diag_correct e B (fst (shape e)) k d0 Hwf Hs HB ltac:(lia) E) as [Hd _]. rewrite <- Hsq at 2. exact Hd. }
+    destruct (exact_diag_correct e B (fst (shape e)) k d0 Hwf Hs HB ltac:(lia) E) as [Hd _]. exact Hd. }
   destruct al as [|tp tq]; [exact Hrun|]. destruct (auto_exact tp tq (fst (shape e)) (snd (shape e))); [exact Hrun|discriminate]. Qed.
+
+(* ---------- Sum *)
+Definition sum_go (D : op -> derr + list R) : list op -> option (list R) -> derr + list R :=
+  fix go (l : list op) (acc : option (list R)) {struct l} : derr + list R :=
+  match l with
+  | [] => match acc with Some a => inr a | None => inr [] end
+  | m :: l' => match D m with
+               | inl er => inl er
+               | inr d => match acc with
+                          | None => go l' (Some d)
+                          | Some a => match vadd a d with Some s => go l' (Some s) | None => inl DValue end
+                          end
+               end
+  end.
+Lemma diag_rule_Sum B al ms k : diag_rule B al (Sum ms) k = sum_go (fun m => diag_rule B al m k) ms None.
+Proof. reflexivity. Qed.
+Lemma sum_go_spec (D : op -> derr + list R) mm nn k l : 
+  (forall m, In m l -> shape m = (mm, nn) /\ forall d, D m = inr d -> d = true_diag mm nn (den m) k) ->
+  forall (A : fm) d, sum_go D l (Some (true_diag mm nn A k)) = inr d ->
+  d = true_diag mm nn (fold_left (fun acc M => madd acc M) (map den l) A) k.
+Proof. induction l as [|m l IH]; intros Hl A d; cbn [map fold_left]; (change (sum_go D) with (fix go (l : list op) (acc : option (list R)) {struct l} : derr + list R := match l with | [] => match acc with Some a => inr a | None => inr [] end | m :: l' => match D m with | inl er => inl er | inr d => match acc with | None => go l' (Some d) | Some a => match vadd a d with Some s => go l' (Some s) | None => inl DValue end end end end)); cbv beta iota; fold (sum_go D).
+  - intros H; injection H as <-. reflexivity.
+  - destruct (Hl m (or_introl eq_refl)) as [_ Hm]. destruct (D m) as [er|dm]; [discriminate|]. rewrite (Hm dm eq_refl).
+    rewrite vadd_true_diag. apply IH. intros m' Hm'. apply Hl. right. exact Hm'. Qed.
+Lemma fold_madd_assoc (l : list fm) (A : fm) i j :
+  fold_left (fun acc M => madd acc M) l A i j = madd A (fold_right (fun M acc => madd M acc) zerom l) i j.
+Proof. revert A. induction l as [|M l IH]; intros A; cbn [fold_left fold_right].
+  - unfold madd, zerom. ring.
+  - rewrite IH. unfold madd. ring. Qed.
+
+(* ---------- BlockDiag *)
+Lemma map_seq_shift {A} (f : nat -> A) s n : map f (seq s n) = map (fun j => f (s + j)%nat) (seq 0 n).
+Proof. revert s. induction n as [|n IH]; intros s; [reflexivity|]. cbn [seq map]. rewrite Nat.add_0_r. f_equal.
+  rewrite IH, <- seq_shift, map_map. apply map_ext. intros j. f_equal. lia. Qed.
+Lemma map_rep {A C} (f : A -> C) mu x : map f (rep mu x) = rep mu (f x).
+Proof. induction mu; cbn [rep map]; congruence. Qed.
+Definition diagblk (b : blk) : list R := map (fun i => snd b i i) (seq 0 (fst (fst b))).
+Lemma bd_diag (L : list blk) : (forall b, In b L -> fst (fst b) = snd (fst b)) ->
+  map (fun i => bd L i i) (seq 0 (rowsB L)) = concat (map diagblk L) /\ rowsB L = colsB L.
+Proof. induction L as [|[[r c] M] L IH]; intros Hsq; [split; reflexivity|].
+  assert (Hc : r = c) by (apply (Hsq ((r, c), M)); left; reflexivity). subst c.
+  destruct IH as [IH1 IH2]; [intros b Hb; apply Hsq; right; exact Hb|].
+  cbn [rowsB colsB fold_right fst snd map concat]. fold (rowsB L) (colsB L). split; [|congruence].
+  rewrite seq_app, map_app. f_equal.
+  - unfold diagblk. cbn [fst snd]. apply map_ext_in. intros i Hi. apply in_seq in Hi. cbn [bd fst snd].
+    replace (i <? r)%nat with true by (symmetry; apply Nat.ltb_lt; lia). reflexivity.
+  - cbn [plus]. rewrite map_seq_shift, <- IH1. apply map_ext. intros j. cbn [bd fst snd].
+    replace (r + j <? r)%nat with false by (symmetry; apply Nat.ltb_ge; lia). f_equal; lia. Qed.
+Definition bd_go (D : op -> derr + list R) : list (op * nat) -> derr + list R :=
+  fix go (l : list (op * nat)) {struct l} : derr + list R :=
+  match l with
+  | [] => inr []
+  | (m, mu) :: l' => match D m with
+                     | inl er => inl er
+                     | inr d => match go l' with inl er => inl er | inr rest => inr (concat (rep mu d) ++ rest) end
+                     end
+  end.
+Lemma diag_rule_BDiag B al ms k : diag_rule B al (BDiag ms) k =
+  if (k =? 0)%Z then bd_go (fun m => diag_rule B al m k) ms else inl DAssert.
+Proof. reflexivity. Qed.
+Lemma bd_go_spec (D : op -> derr + list R) l d :
+  (forall mc, In mc l -> fst (shape (fst mc)) = snd (shape (fst mc)) /\
+      forall d, D (fst mc) = inr d -> d = true_diag (fst (shape (fst mc))) (snd (shape (fst mc))) (den (fst mc)) 0) ->
+  bd_go D l = inr d -> d = concat (map diagblk (blocks l)).
+Proof. revert d. induction l as [|[m mu] l IH]; intros d Hl.
+  - intros H; injection H as <-. reflexivity.
+  - change (bd_go D ((m, mu) :: l)) with (match D m with inl er => inl er | inr d0 => match bd_go D l with inl er => inl er | inr rest => inr (concat (rep mu d0) ++ rest) end end).
+    destruct (Hl (m, mu) (or_introl eq_refl)) as [Hsq Hm]. cbn [fst] in Hsq, Hm.
+    destruct (D m) as [er|dm]; [discriminate|]. destruct (bd_go D l) as [er|rest] eqn:E; [discriminate|].
+    intros H; injection H as <-.
+    assert (Hrest : rest = concat (map diagblk (blocks l))) by (apply IH; [intros mc Hmc; apply Hl; right; exact Hmc|reflexivity]).
+    rewrite Hrest. unfold blocks. cbn [map concat fst snd]. rewrite map_app, concat_app. f_equal. rewrite map_rep. do 2 f_equal.
+    unfold diagblk. cbn [fst snd]. rewrite (Hm dm eq_refl), <- Hsq. apply true_diag_0. Qed.
+
+(* ---------- Kronecker *)
+Lemma flat_map_seq (f : R -> R -> R) (g h : nat -> R) a b : (0 < b)%nat ->
+  flat_map (fun x => map (fun y => f x y) (map h (seq 0 b))) (map g (seq 0 a))
+  = map (fun t => f (g (t / b)%nat) (h (t mod b)%nat)) (seq 0 (a * b)).
+Proof. intros Hb. induction a as [|a IH]; [reflexivity|].
+  rewrite seq_S, map_app, flat_map_app, IH. cbn [plus map flat_map]. rewrite app_nil_r.
+  replace (S a * b)%nat with (a * b + b)%nat by lia. rewrite seq_app, map_app. f_equal. cbn [plus].
+  rewrite map_map, (map_seq_shift _ (a * b) b). apply map_ext_in. intros q Hq. apply in_seq in Hq.
+  rewrite (Nat.add_comm (a * b) q), Nat.div_add, Nat.mod_add, Nat.div_small, Nat.mod_small by lia. reflexivity. Qed.
+Definition kr_go (D : op -> derr + list R) : list op -> derr + list (list R) :=
+  fix go (l : list op) {struct l} : derr + list (list R) :=
+  match l with
+  | [] => inr []
+  | m :: l' => match D m with
+               | inl er => inl er
+               | inr d => match go l' with inl er => inl er | inr ds => inr (d :: ds) end
+               end
+  end.
+Lemma diag_rule_Kron B al ms k : diag_rule B al (Kron ms) k =
+  if (k =? 0)%Z then match kr_go (fun m => diag_rule B al m k) ms with inl er => inl er | inr ds => inr (outer rmul r1 ds) end
+  else inl DAssert.
+Proof. reflexivity. Qed.
+Lemma kr_go_spec (D : op -> derr + list R) l ds :
+  (forall m, In m l -> fst (shape m) = snd (shape m) /\ (0 < fst (shape m))%nat /\
+      forall d, D m = inr d -> d = true_diag (fst (shape m)) (snd (shape m)) (den m) 0) ->
+  kr_go D l = inr ds ->
+  let K := kronR (map facof l) in
+  fr K = fc K /\ (0 < fr K)%nat /\ outer rmul r1 ds = map (fun t => fmx K t t) (seq 0 (fr K)).
+Proof. revert ds. induction l as [|m l IH]; intros ds Hl.
+  - intros H; injection H as <-. cbv zeta. cbn. repeat split; lia.
+  - change (kr_go D (m :: l)) with (match D m with inl er => inl er | inr d => match kr_go D l with inl er => inl er | inr ds0 => inr (d :: ds0) end end).
+    destruct (Hl m (or_introl eq_refl)) as (Hsq & Hpos & Hm).
+    destruct (D m) as [er|dm]; [discriminate|]. destruct (kr_go D l) as [er|ds0] eqn:E; [discriminate|].
+    intros H; injection H as <-. destruct (IH ds0) as (I1 & I2 & I3); [intros m' Hm'; apply Hl; right; exact Hm'|reflexivity|].
+    cbv zeta in *. cbn [map kronR kron2 fr fc fmx facof]. set (K' := kronR (map facof l)) in *.
+    split; [rewrite Hsq, I1; reflexivity|]. split; [apply Nat.mul_pos_pos; assumption|].
+    unfold outer. cbn [fold_right]. fold (outer rmul r1 ds0). rewrite I3, (Hm dm eq_refl), <- Hsq, true_diag_0.
+    rewrite flat_map_seq by exact I2. apply map_ext. intros t. rewrite <- I1. reflexivity. Qed.
+
+(* ---------- KronSum: den is the left fold of binary Kronecker sums, the rule is the right-nested outer sum *)
+Definition dg (F : fac) : list R := map (fun t => fmx F t t) (seq 0 (fr F)).
+Lemma dg_ksum2 (A Bf : fac) : fr Bf = fc Bf -> (0 < fr Bf)%nat ->
+  dg (ksum2 A Bf) = flat_map (fun x => map (fun y => x + y) (dg Bf)) (dg A).
+Proof. intros Hsq Hpos. unfold dg. rewrite flat_map_seq by exact Hpos. cbn [ksum2 fr fc fmx]. apply map_ext. intros t.
+  rewrite <- Hsq. rewrite !delta_eq by reflexivity. ring. Qed.
+Lemma ksumR_dg (fs : list fac) : (forall g, In g fs -> fr g = fc g /\ (0 < fr g)%nat) ->
+  fr (ksumR fs) = fc (ksumR fs) /\ (0 < fr (ksumR fs))%nat /\ fr (ksumR fs) = fr (kronR fs) /\ fc (ksumR fs) = fc (kronR fs) /\
+  dg (ksumR fs) = outer radd r0 (map dg fs).
+Proof. induction fs as [|g fs IH]; intros Hfs.
+  - cbn. repeat split; lia.
+  - destruct (Hfs g (or_introl eq_refl)) as [Gsq Gpos].
+    destruct IH as (I1 & I2 & I3 & I4 & I5); [intros g' Hg'; apply Hfs; right; exact Hg'|].
+    cbn [ksumR kronR map]. split; [cbn [ksum2 fr fc]; rewrite Gsq, I1; reflexivity|].
+    split; [cbn [ksum2 fr]; apply Nat.mul_pos_pos; assumption|].
+    split; [cbn [ksum2 kron2 fr]; rewrite I3; reflexivity|]. split; [cbn [ksum2 kron2 fc]; rewrite I4; reflexivity|].
+    rewrite dg_ksum2 by assumption. rewrite I5. reflexivity. Qed.
+Lemma diag_rule_KronSum B al ms k : diag_rule B al (KronSum ms) k =
+  if (k =? 0)%Z then match kr_go (fun m => diag_rule B al m k) ms with inl er => inl er | inr ds => inr (outer radd r0 ds) end
+  else inl DAssert.
+Proof. reflexivity. Qed.
+Lemma kr_go_dg (D : op -> derr + list R) l ds :
+  (forall m, In m l -> fst (shape m) = snd (shape m) /\
+      forall d, D m = inr d -> d = true_diag (fst (shape m)) (snd (shape m)) (den m) 0) ->
+  kr_go D l = inr ds -> ds = map dg (map facof l).
+Proof. revert ds. induction l as [|m l IH]; intros ds Hl.
+  - intros H; injection H as <-. reflexivity.
+  - change (kr_go D (m :: l)) with (match D m with inl er => inl er | inr d => match kr_go D l with inl er => inl er | inr ds0 => inr (d :: ds0) end end).
+    destruct (Hl m (or_introl eq_refl)) as (Hsq & Hm).
+    destruct (D m) as [er|dm]; [discriminate|]. destruct (kr_go D l) as [er|ds0] eqn:E; [discriminate|].
+    intros H; injection H as <-. cbn [map]. f_equal.
+    + rewrite (Hm dm eq_refl), <- Hsq, true_diag_0. reflexivity.
+    + apply IH; [intros m' Hm'; apply Hl; right; exact Hm'|reflexivity]. Qed.
+
+(* ---------- leaves *)
+Lemma ident_diag n k d : (if (k =? 0)%Z then inr (rep n r1) else zeros_k n k) = inr d -> d = true_diag n n (eye (R:=R)) k.
+Proof. destruct (k =? 0)%Z eqn:E.
+  - apply Z.eqb_eq in E. subst k. intros H; injection H as <-. rewrite rep_map, true_diag_0. apply map_ext. intros i. unfold eye. rewrite delta_eq; reflexivity.
+  - apply Z.eqb_neq in E. apply zeros_true_diag; [exact E|]. intros i j Hij. unfold eye. apply delta_ne. exact Hij. Qed.
+Lemma true_diag_map (f : R -> R) m n (A : fm) k : map f (true_diag m n A k) = true_diag m n (fun i j => f (A i j)) k.
+Proof. unfold true_diag. destruct (0 <=? k)%Z; rewrite map_map; reflexivity. Qed.
+Lemma in_rep {A} mu (x y : A) : In x (rep mu y) -> x = y.
+Proof. induction mu; cbn [rep In]; [tauto|]. intros [H|H]; auto. Qed.
+
+(* ===== the structural rules return the diagonal of the represented matrix (or refuse) ===== *)
+Theorem diag_rule_agrees B al : (1 <= B)%nat -> forall (e : op) k d, dwf e = true -> diag_rule B al e k = inr d ->
+  d = true_diag (fst (shape e)) (snd (shape e)) (den e) k.
+Proof.
+  intros HB.
+  assert (G : forall e : op, dwf e = (wf e && Nat.eqb (fst (shape e)) (snd (shape e)) && (0 <? fst (shape e))%nat) ->
+              (forall k, diag_rule B al e k = generic_diag B al e k) ->
+              forall k d, dwf e = true -> diag_rule B al e k = inr d -> d = true_diag (fst (shape e)) (snd (shape e)) (den e) k).
+  { intros e E1 E2 k d Hd Hr. rewrite E1 in Hd. apply andb_prop in Hd as [Hd H3]. apply andb_prop in Hd as [H1 H2].
+    rewrite E2 in Hr. eapply generic_agrees; eauto. }
+  apply (op_ind2 (fun e => forall k d, dwf e = true -> diag_rule B al e k = inr d -> d = true_diag (fst (shape e)) (snd (shape e)) (den e) k)).
+  - (* Dense *) intros a k d _ H. cbn [diag_rule] in H. injection H as <-. reflexivity.
+  - (* Diag *) intros n d0 k d _ H. cbn [diag_rule shape den fst snd] in *. destruct (k =? 0)%Z eqn:E.
+    + apply Z.eqb_eq in E. subst k. injection H as <-. rewrite true_diag_0. apply map_ext. intros i. rewrite delta_eq by reflexivity. ring.
+    + apply Z.eqb_neq in E. apply zeros_true_diag; [exact E| |exact H]. intros i j Hij. rewrite delta_ne by exact Hij. ring.
+  - (* Ident *) intros n k d _ H. cbn [diag_rule shape den fst snd] in *. apply ident_diag. exact H.
+  - (* Scal *) intros c n k d _ H. cbn [diag_rule shape den fst snd] in *.
+    destruct (if (k =? 0)%Z then inr (rep n r1) else zeros_k n k) as [er|d0] eqn:E; [discriminate|]. injection H as <-.
+    rewrite (ident_diag n k d0 E), true_diag_map. reflexivity.
+  - (* Sum *) intros ms HF k d Hd H. cbn [dwf] in Hd. apply andb_prop in Hd as [Hd Hsh]. apply andb_prop in Hd as [Hne Hds].
+    rewrite diag_rule_Sum in H. destruct ms as [|m l]; [discriminate Hne|].
+    set (s0 := hd (0,0)%nat (map shape (m :: l))) in *.
+    assert (Hall : forall m', In m' (m :: l) -> shape m' = (fst s0, snd s0) /\ dwf m' = true).
+    { intros m' Hm'. rewrite forallb_forall in Hds, Hsh. split; [|apply Hds; exact Hm'].
+      specialize (Hsh (shape m') (in_map shape _ _ Hm')). unfold shp_eqb in Hsh. apply andb_prop in Hsh as [A B']. apply Nat.eqb_eq in A, B'.
+      destruct (shape m'); cbn [fst snd] in *; congruence. }
+    rewrite Forall_forall in HF.
+    change (sum_go (fun m0 => diag_rule B al m0 k) (m :: l) None)
+      with (match diag_rule B al m k with inl er => inl er | inr d1 => sum_go (fun m0 => diag_rule B al m0 k) l (Some d1) end) in H.
+    destruct (diag_rule B al m k) as [er|d1] eqn:E1; [discriminate|].
+    destruct (Hall m (or_introl eq_refl)) as [Sm Dm]. pose proof (HF m (or_introl eq_refl) k d1 Dm E1) as Hd1. rewrite Sm in Hd1. cbn [fst snd] in Hd1. subst d1.
+    apply (sum_go_spec _ (fst s0) (snd s0) k l) in H.
+    + cbn [shape]. fold s0. rewrite H. apply true_diag_ext. intros i j _ _. rewrite fold_madd_assoc. reflexivity.
+    + intros m' Hm'. destruct (Hall m' (or_intror Hm')) as [Sm' Dm']. split; [exact Sm'|]. intros d' Hd'.
+      pose proof (HF m' (or_intror Hm') k d' Dm' Hd') as Hx. rewrite Sm' in Hx. exact Hx.
+  - (* Prod *) intros ms _. apply G; reflexivity.
+  - (* Kron *) intros ms HF k d Hd H. cbn [dwf] in Hd. rewrite diag_rule_Kron in H. destruct (k =? 0)%Z eqn:E; [|discriminate]. apply Z.eqb_eq in E. subst k.
+    destruct (kr_go (fun m => diag_rule B al m 0) ms) as [er|ds] eqn:Eg; [discriminate|]. injection H as <-.
+    rewrite Forall_forall in HF. rewrite forallb_forall in Hd.
+    destruct (kr_go_spec (fun m => diag_rule B al m 0) ms ds) as (K1 & K2 & K3); [|exact Eg|].
+    { intros m Hm. specialize (Hd m Hm). apply andb_prop in Hd as [Hd H3]. apply andb_prop in Hd as [H1 H2].
+      apply Nat.eqb_eq in H2. apply Nat.ltb_lt in H3. split; [exact H2|]. split; [exact H3|]. intros d Hdm. apply (HF m Hm 0%Z d H1 Hdm). }
+    cbv zeta in K1, K2, K3. cbn [shape den]. rewrite (kshape_kronR ms). cbn [fst snd]. fold (facof (R:=R)).
+    rewrite <- K1, true_diag_0. exact K3.
+  - (* BDiag *) intros ms HF k d Hd H. cbn [dwf] in Hd. rewrite diag_rule_BDiag in H. destruct (k =? 0)%Z eqn:E; [|discriminate]. apply Z.eqb_eq in E. subst k.
+    rewrite Forall_forall in HF. rewrite forallb_forall in Hd.
+    apply bd_go_spec in H.
+    + assert (Hsq : forall b, In b (blocks ms) -> fst (fst b) = snd (fst b)).
+      { intros b Hb. unfold blocks in Hb. apply in_concat in Hb as (lb & Hlb & Hb). apply in_map_iff in Hlb as (mc & <- & Hmc).
+        apply in_rep in Hb. subst b. cbn [fst]. specialize (Hd mc Hmc). apply andb_prop in Hd as [_ H2]. apply Nat.eqb_eq in H2. exact H2. }
+      destruct (bd_diag (blocks ms) Hsq) as [D1 D2].
+      cbn [shape den]. rewrite (bshape_blocks ms). cbn [fst snd]. fold (blocks ms). rewrite <- D2, true_diag_0, D1. exact H.
+    + intros mc Hmc. specialize (Hd mc Hmc). apply andb_prop in Hd as [H1 H2]. apply Nat.eqb_eq in H2. split; [exact H2|].
+      intros d' Hd'. apply (HF mc Hmc 0%Z d' H1 Hd').
+  - (* Transp *) intros a _. apply G; reflexivity.
+  - (* Adj *) intros a _. apply G; reflexivity.
+  - (* Gen *) intros a. apply G; reflexivity.
+  - (* Perm *) intros n p. apply G; reflexivity.
+  - (* Tridiag *) intros n al0 be ga. apply G; reflexivity.
+  - (* House *) intros n v beta. apply G; reflexivity.
+  - (* Sparse *) intros m n ent. apply G; reflexivity.
+  - (* KronSum *) intros ms HF k d Hd H. cbn [dwf] in Hd. apply andb_prop in Hd as [Hne Hd].
+    rewrite diag_rule_KronSum in H. destruct (k =? 0)%Z eqn:E; [|discriminate]. apply Z.eqb_eq in E. subst k.
+    destruct (kr_go (fun m => diag_rule B al m 0) ms) as [er|ds] eqn:Eg; [discriminate|]. injection H as <-.
+    rewrite Forall_forall in HF. rewrite forallb_forall in Hd.
+    assert (Hall : forall m, In m ms -> dwf m = true /\ fst (shape m) = snd (shape m) /\ (0 < fst (shape m))%nat).
+    { intros m Hm. specialize (Hd m Hm). apply andb_prop in Hd as [Hd H3]. apply andb_prop in Hd as [H1 H2].
+      apply Nat.eqb_eq in H2. apply Nat.ltb_lt in H3. auto. }
+    assert (Hds : ds = map dg (map facof ms)).
+    { apply (kr_go_dg (fun m => diag_rule B al m 0)); [|exact Eg]. intros m Hm. destruct (Hall m Hm) as (H1 & H2 & H3).
+      split; [exact H2|]. intros d Hdm. apply (HF m Hm 0%Z d H1 Hdm). }
+    rewrite Hds. clear Hds Eg.
+    cbn [shape den]. change (map (fun m0 : op => mkfac (fst (shape m0)) (snd (shape m0)) (den m0)) ms) with (map facof ms).
+    destruct (ksumR_dg (map facof ms)) as (F1 & F2 & F3 & F4 & F5).
+    { intros g Hg. apply in_map_iff in Hg as (m' & <- & Hm'). cbn [facof fr fc]. destruct (Hall m' Hm') as (_ & H2 & H3). split; assumption. }
+    rewrite (kshape_kronR ms). cbn [fst snd]. rewrite <- F3, <- F4, <- F1, true_diag_0. symmetry. exact F5.
+  - (* Sliced *) intros a rs cs _. apply G; reflexivity.
+  - (* ConcatV *) intros ms _. apply G; reflexivity.
+Qed.
+
+(* ---------- trace *)
+Fixpoint tdwf (e : op) : bool :=
+  match e with
+  | Kron ms => forallb (fun m => tdwf m && Nat.eqb (fst (shape m)) (snd (shape m)) && (0 <? fst (shape m))%nat) ms
+  | _ => dwf e && Nat.eqb (fst (shape e)) (snd (shape e))
+  end.
+Lemma generic_trace_correct B al (e : op) t : (1 <= B)%nat -> dwf e = true -> generic_trace B al e = inr t ->
+  t = true_trace (fst (shape e)) (den e).
+Proof. intros HB Hd. unfold generic_trace. destruct (Nat.eqb_spec (fst (shape e)) (snd (shape e))) as [Hsq|]; [|discriminate].
+  destruct (diag_rule B al e 0) as [er|d] eqn:E; [discriminate|]. intros H; injection H as <-.
+  rewrite (diag_rule_agrees B al HB e 0%Z d Hd E), <- Hsq, true_diag_0, lsum_map. reflexivity. Qed.
+Definition tr_go (D : op -> derr + R) : list op -> derr + R :=
+  fix go (l : list op) {struct l} : derr + R :=
+  match l with
+  | [] => inr r1
+  | m :: l' => match D m with
+               | inl er => inl er
+               | inr t => match go l' with inl er => inl er | inr p => inr (t * p) end
+               end
+  end.
+Lemma trace_rule_Kron B al ms : trace_rule B al (Kron ms) = tr_go (fun m => trace_rule B al m) ms.
+Proof. reflexivity. Qed.
+Lemma trace_kron2 (A K' : fac) : fr A = fc A -> fr K' = fc K' -> (0 < fr K')%nat ->
+  true_trace (fr (kron2 A K')) (fmx (kron2 A K')) = true_trace (fr A) (fmx A) * true_trace (fr K') (fmx K').
+Proof. intros HA HK Hpos. unfold true_trace. cbn [kron2 fr fc fmx]. rewrite sum_prod. rewrite <- sum_mul_r. apply sum_ext. intros i Hi.
+  rewrite <- sum_mul_l. apply sum_ext. intros j Hj. rewrite <- HK.
+  rewrite (Nat.add_comm (i * fr K') j), Nat.div_add, Nat.mod_add, Nat.div_small, Nat.mod_small by lia. reflexivity. Qed.
+Lemma tr_go_spec (D : op -> derr + R) l t :
+  (forall m, In m l -> fst (shape m) = snd (shape m) /\ (0 < fst (shape m))%nat /\
+      forall t', D m = inr t' -> t' = true_trace (fst (shape m)) (den m)) ->
+  tr_go D l = inr t ->
+  let K := kronR (map facof l) in fr K = fc K /\ (0 < fr K)%nat /\ t = true_trace (fr K) (fmx K).
+Proof. revert t. induction l as [|m l IH]; intros t Hl.
+  - intros H; injection H as <-. cbv zeta. cbn. unfold true_trace. cbn. repeat split; try lia. ring.
+  - change (tr_go D (m :: l)) with (match D m with inl er => inl er | inr t0 => match tr_go D l with inl er => inl er | inr p => inr (t0 * p) end end).
+    destruct (Hl m (or_introl eq_refl)) as (Hsq & Hpos & Hm).
+    destruct (D m) as [er|tm]; [discriminate|]. destruct (tr_go D l) as [er|p] eqn:E; [discriminate|].
+    intros H; injection H as <-. destruct (IH p) as (I1 & I2 & I3); [intros m' Hm'; apply Hl; right; exact Hm'|reflexivity|].
+    cbv zeta in *. cbn [map kronR]. set (K' := kronR (map facof l)) in *.
+    split; [cbn [kron2 fr fc facof]; rewrite Hsq, I1; reflexivity|]. split; [cbn [kron2 fr facof]; apply Nat.mul_pos_pos; assumption|].
+    rewrite trace_kron2; [|cbn [facof fr fc]; exact Hsq|exact I1|exact I2]. rewrite I3, (Hm tm eq_refl). reflexivity. Qed.
+
+Theorem trace_correct B al : (1 <= B)%nat -> forall (e : op) t, tdwf e = true -> trace_rule B al e = inr t ->
+  t = true_trace (fst (shape e)) (den e).
+Proof.
+  intros HB.
+  assert (G : forall e : op, tdwf e = (dwf e && Nat.eqb (fst (shape e)) (snd (shape e))) -> trace_rule B al e = generic_trace B al e ->
+              forall t, tdwf e = true -> trace_rule B al e = inr t -> t = true_trace (fst (shape e)) (den e)).
+  { intros e E1 E2 t Ht Hr. rewrite E1 in Ht. apply andb_prop in Ht as [H1 _]. rewrite E2 in Hr. eapply generic_trace_correct; eauto. }
+  apply (op_ind2 (fun e => forall t, tdwf e = true -> trace_rule B al e = inr t -> t = true_trace (fst (shape e)) (den e)));
+    try (intros; eapply G; eauto; reflexivity).
+  (* Kron *) intros ms HF t Ht H. cbn [tdwf] in Ht. rewrite trace_rule_Kron in H.
+  rewrite Forall_forall in HF. rewrite forallb_forall in Ht.
+  destruct (tr_go_spec (fun m => trace_rule B al m) ms t) as (K1 & K2 & K3); [|exact H|].
+  { intros m Hm. specialize (Ht m Hm). apply andb_prop in Ht as [Ht H3]. apply andb_prop in Ht as [H1 H2].
+    apply Nat.eqb_eq in H2. apply Nat.ltb_lt in H3. split; [exact H2|]. split; [exact H3|]. intros t' Ht'. apply (HF m Hm t' H1 Ht'). }
+  cbv zeta in K1, K2, K3. cbn [shape den]. rewrite (kshape_kronR ms). cbn [fst]. exact K3.
+Qed.
 End RP.
